@@ -1458,7 +1458,6 @@ func isTreePkg(f *ssa.Function) bool {
 	return strings.HasPrefix(pk, modPath+"/languages/") || strings.Contains(pk, "antlr")
 }
 
-
 // loopOrdinal: 1-based position of the loop headed by h among the function's loops, in block order.
 func (s *symFn) loopOrdinal(h *ssa.BasicBlock) int {
 	n := 1
@@ -1470,11 +1469,9 @@ func (s *symFn) loopOrdinal(h *ssa.BasicBlock) int {
 	return n
 }
 
-
 func isNilSym(x *Sym) bool {
 	return x != nil && (x.Op == "nil" || (x.Op == "const" && x.C == nil))
 }
-
 
 func calleePkg(f *ssa.Function) *types.Package {
 	if f.Pkg != nil {
